@@ -22,7 +22,7 @@ VERIF = os.path.dirname(os.path.dirname(os.path.dirname(os.path.abspath(__file__
 SPEC = os.path.join(VERIF, "spec")
 HARNESS = os.path.join(VERIF, "harness")
 WORK = os.path.join(VERIF, "work")
-RECS = os.path.join(WORK, "recs")
+RECS = os.environ.get("VERIF_RECS", os.path.join(WORK, "recs"))
 REPLAYS = os.path.join(VERIF, "replays")
 EVIDENCE = os.path.join(VERIF, "evidence")
 REPO = os.environ.get("VERIF_REPO", "/repo")
@@ -63,6 +63,9 @@ def sha_files(paths):
 MODULE_DEPS = {
     "MCBoard.tla": ["Geometry.tla", "Rules.tla", "Text.tla", "MCBoard.tla"],
     "MCGame.tla": ["Geometry.tla", "Rules.tla", "Text.tla", "Game.tla", "MCGame.tla"],
+    "MCIter.tla": ["MoveGenIter.tla", "MoveGenImpl.tla", "MCIter.tla"],
+    "MCCache.tla": ["CacheTable.tla", "MCCache.tla"],
+    "MCText.tla": ["Geometry.tla", "Rules.tla", "Text.tla", "MCText.tla"],
 }
 
 
@@ -76,6 +79,25 @@ def spec_hash(module=None):
 _built = {}
 
 
+def harness_dir():
+    """The harness crate has a path dependency on /repo.  For mutation experiments VERIF_REPO may point at a
+    scratch worktree: a copy of the crate with the path rewritten is then used (never for registered checks)."""
+    if REPO == "/repo":
+        return HARNESS
+    alt = os.path.join(WORK, "harness-alt-" + hashlib.sha256(REPO.encode()).hexdigest()[:10])
+    os.makedirs(os.path.join(alt, "src", "bin"), exist_ok=True)
+    os.makedirs(os.path.join(alt, ".cargo"), exist_ok=True)
+    for rel in ["Cargo.lock", ".cargo/config.toml", "src/lib.rs"] + ["src/bin/" + f for f in os.listdir(os.path.join(HARNESS, "src", "bin"))]:
+        src, dst = os.path.join(HARNESS, rel), os.path.join(alt, rel)
+        data = open(src, "rb").read()
+        if not os.path.exists(dst) or open(dst, "rb").read() != data:
+            open(dst, "wb").write(data)
+    toml = open(os.path.join(HARNESS, "Cargo.toml")).read().replace('path = "/repo"', 'path = "%s"' % REPO)
+    if not os.path.exists(os.path.join(alt, "Cargo.toml")) or open(os.path.join(alt, "Cargo.toml")).read() != toml:
+        open(os.path.join(alt, "Cargo.toml"), "w").write(toml)
+    return alt
+
+
 def build_harness(bmi2=False):
     """cargo build of the harness (path dependency on /repo => always the current working tree)."""
     key = "bmi2" if bmi2 else "default"
@@ -83,19 +105,20 @@ def build_harness(bmi2=False):
         return _built[key]
     env = dict(os.environ)
     env["CARGO_NET_OFFLINE"] = "true"
-    target = os.path.join(HARNESS, "target-bmi2" if bmi2 else "target")
+    hdir = harness_dir()
+    target = os.path.join(hdir, "target-bmi2" if bmi2 else "target")
     env["CARGO_TARGET_DIR"] = target
     if bmi2:
         env["RUSTFLAGS"] = "--cfg jordanbray_chess_verif --check-cfg cfg(jordanbray_chess_verif) -C target-feature=+bmi2"
     t0 = time.time()
     with open(os.path.join(WORK, "build.lock"), "w") as lk:
         fcntl.flock(lk, fcntl.LOCK_EX)
-        p = subprocess.run(["cargo", "build", "--release", "--offline", "--quiet"], cwd=HARNESS, env=env,
+        p = subprocess.run(["cargo", "build", "--release", "--offline", "--quiet"], cwd=hdir, env=env,
                            stdout=subprocess.PIPE, stderr=subprocess.STDOUT, text=True)
     if p.returncode != 0:
         sys.stderr.write(p.stdout[-6000:])
-        raise ToolError("cargo build of the harness failed (does /repo compile?)")
-    log("harness built (%s) in %.1fs" % (key, time.time() - t0))
+        raise ToolError("cargo build of the harness failed (does %s compile?)" % REPO)
+    log("harness built (%s, against %s) in %.1fs" % (key, REPO, time.time() - t0))
     _built[key] = os.path.join(target, "release")
     return _built[key]
 
@@ -150,7 +173,7 @@ def write_cfg(path, spec="Spec", constants=None, extra_lines=()):
             for k, v in constants.items():
                 if isinstance(v, bool):
                     v = "TRUE" if v else "FALSE"
-                elif isinstance(v, str):
+                elif isinstance(v, str) and not getattr(constants, "raw", False):
                     v = '"%s"' % v
                 f.write("  %s = %s\n" % (k, v))
         f.write("CHECK_DEADLOCK FALSE\n")
@@ -262,6 +285,8 @@ def finish(prop, tier, level, violations, coverage, assumptions, t0, extra_known
             new.append(v)
     for hid, (hit, n) in printed_known.items():
         print("KNOWN-FINDING: property=%s %s (%d occurrence(s) this run; id=%s)" % (prop, hit["what"], n, hid))
+    for old in glob.glob(os.path.join(REPLAYS, "%s-%s-*.json" % (prop, tier))):
+        os.unlink(old)
     rc = 0
     for i, v in enumerate(new[:20]):
         path = os.path.join(REPLAYS, "%s-%s-%d.json" % (prop, tier, i))
